@@ -159,7 +159,7 @@ def finalize(agg):
         reasons.append("budget tripped at only %d distinct exit sites" % len(sites))
     if st.get("runs_with_repeated_samples", 0) < 20:
         reasons.append("too few runs with repeated samples")
-    cov = dict(objfun_calls=int(st.get("objfun_calls", 0)), budget_trip_sites=sites,
+    cov = dict(evaluations=int(st.get("runs", 0)), objfun_calls=int(st.get("objfun_calls", 0)), budget_trip_sites=sites,
                runs_budget_tripped=int(st.get("runs_budget_tripped", 0)),
                budget_index_runs=int(st.get("budget_index_runs", 0)),
                runs_with_repeated_samples=int(st.get("runs_with_repeated_samples", 0)),
